@@ -46,7 +46,8 @@ private def showBins (l : List (Bin Float)) : String :=
 * `rhistn n (fr to cyc)…`             → `edges;contents` of `range_histogram(n)`
 * `hist2 ne e… (fr to cyc)…`          → contents (row-major) of `histogram(edges)`
 * `hist2n n (fr to cyc)…`             → `range edges;mean edges;contents` of `histogram(n)`
-* `fthist ne e… (fr to cyc)…`         → contents of the recorder's from/to histogram
+* `fthist ne e… (fr to cyc)…`         → contents of the recorder's from/to histogram (handled, but the harness never emits
+  it today: the recorder cases go through `fthist2` / `fthistn`)
 * `fthist2 nex ex… ney ey… (fr to cyc)…` → `ex;ey;contents` with different edges for from and to (`[ex, ey]`)
 * `fthistn nx ny (fr to cyc)…`        → `from edges;to edges;contents` for class counts `[nx, ny]`
 * `chain nt t… k [ne e… nr (fr to cyc)×nr]×k` → per collective `range_histogram(e)`, `;`, each re-binned to `t`, `;`, combined
@@ -60,6 +61,7 @@ private def showBins (l : List (Bin Float)) : String :=
   `n1 n2`) re-binned to a MultiIndex target whose levels `t1`, `t2` (any order) carry the breaks
 * `combine k len₁ … len_k (l r v)…`   → combined `(l r v)…` (a NaN content is an unoccupied class)
 * `rebino nd nb b… (l r v)…`          → contents after `rebin_histogram(src, from_breaks(b), nan_default=nd)`, NaN for unoccupied
+  (handled, but the harness never emits it today: `nan_default` is exercised through `pipe`)
 * `pipe nd nb b… k len₁ … len_k (l r v)…` → every histogram re-binned to `b` (`;`-separated), then `;` the combination
 -/
 def handleCollective : List String → Option String
